@@ -11,7 +11,7 @@ from fractions import Fraction
 from mc.models import timeline as TL
 
 TIMES = [(0, 0, Fraction(0)), (12, 30, Fraction(15)), (23, 59, Fraction(59999999, 1000000)), (24, 0, Fraction(0))]
-TZS = [None, 0, 14 * 60, -14 * 60, 5 * 60 + 30]
+TZS = [None, 0, 14 * 60, -14 * 60, 5 * 60 + 30, -30]
 DURS = [0, 1, -1, 86400, -86400, 365 * 86400, -365 * 86400, 366 * 86400, -366 * 86400, 146097 * 86400, -146097 * 86400, 3600 * 5 + 61]
 YMS = [1, -1, 12, -12, 13, -13, 11, 4800, -4800, 2, -2]
 
@@ -266,7 +266,7 @@ def pair_grid(ver):
             if d > TL.month_len(a, m):
                 continue
             for t in (TIMES[0], TIMES[2]):
-                for tz in (None, 0, 330, -840):
+                for tz in (None, 0, 330, -840, -30):
                     out.append((y, m, d, t, tz))
     return out
 
@@ -392,6 +392,15 @@ def run_xpath(unit, tier, acc):
                             acc.cmp()
                             if r != ('value', True):
                                 viol(acc, 'implicit-timezone-comparison', ver, y, '%s eq %s with implicit timezone %s' % (s, s2, itz), {'observed': repr(r)[:100]}, case)
+                            # both operands without timezone, value and general comparison: the implicit timezone applies to both alike
+                            for src, want in (('xs:dateTime($s) = xs:dateTime($s)', True), ('xs:dateTime($s) != xs:dateTime($s)', False), ('xs:dateTime($s) < xs:dateTime($s)', False),
+                                              ('xs:dateTime($s) le xs:dateTime($s)', True), ('xs:dateTime($s) >= xs:dateTime($t)', True), ('xs:dateTime($t) = xs:dateTime($s)', True),
+                                              ('xs:date(xs:dateTime($s)) = xs:date(xs:dateTime($s))', True), ('xs:time(xs:dateTime($s)) = xs:time(xs:dateTime($s))', True)):
+                                r = ev(src, tzc=itz, s=s, t=s2)
+                                acc.ev()
+                                acc.cmp()
+                                if r != ('value', want):
+                                    viol(acc, 'implicit-timezone-comparison', ver, y, '%s with $s=%s $t=%s and implicit timezone %s' % (src, s, s2, itz), {'expected': want, 'observed': repr(r)[:100]}, case)
     acc.sample({'xsd_version': ver, 'expression': "adjust-dateTime-to-timezone(xs:dateTime('-0004-02-29T12:30:15'), xs:dayTimeDuration('PT330M'))"})
 
 
@@ -544,7 +553,7 @@ def run_dates(unit, tier, acc):
         for (m, d) in ((1, 1), (1, 31), (2, 28), (2, 29), (3, 1), (3, 31), (12, 31)):
             if d > TL.month_len(a, m):
                 continue
-            for tz in (None, 0, 330, -840, 840):
+            for tz in (None, 0, 330, -840, 840, -30):
                 dates.append((y, m, d, tz))
 
     def dstr(y, m, d, tz):
@@ -633,7 +642,7 @@ def run_dates(unit, tier, acc):
                     viol(acc, 'date-comparison', ver, (a[0], b[0]), 'xs:date(%s) %s xs:date(%s)' % (sa, name, sb), {'expected': op(ia, ib), 'observed': repr(r)[:100]}, case)
                     break
     # xs:time
-    times = [(t, tz) for t in (TIMES[0], TIMES[1], TIMES[2], (1, 0, Fraction(0)), (23, 0, Fraction(0))) for tz in (None, 0, 330, -840, 840)]
+    times = [(t, tz) for t in (TIMES[0], TIMES[1], TIMES[2], (1, 0, Fraction(0)), (23, 0, Fraction(0))) for tz in (None, 0, 330, -840, 840, -30)]
     for (t, tz) in times:
         s = time_string(t, tz)
         base = t[0] * 3600 + t[1] * 60 + t[2]
